@@ -500,8 +500,382 @@ def translate_util(text):
     return out
 
 
+# ------------------------------------------------------------------ _decode_message / _decode_message_set_iter
+# (coq/Model/MsgDSL.v)
+def _name(e, want=None):
+    return isinstance(e, ast.Name) and (want is None or e.id == want)
+
+
+def _is_set_iter_call(e):
+    """KafkaCodec._decode_message_set_iter(<name>) -> the name, else None"""
+    if (isinstance(e, ast.Call) and isinstance(e.func, ast.Attribute) and e.func.attr == "_decode_message_set_iter"
+            and _name(e.func.value) and e.func.value.id in ("KafkaCodec", "cls") and len(e.args) == 1 and not e.keywords and _name(e.args[0])):
+        return e.args[0].id
+    return None
+
+
+class MFn:
+    def __init__(self, consts):
+        self.consts = consts
+        self.slots = ["offset"]
+
+    def slot(self, name, node, define=False):
+        if name in ("data", "cur", "cls"):
+            refuse(node, "use of %s as a value" % name)
+        if name not in self.slots:
+            if not define:
+                refuse(node, "read of unknown name %s" % name)
+            self.slots.append(name)
+        return self.slots.index(name)
+
+    def const(self, e):
+        if isinstance(e, ast.Constant) and type(e.value) is int:
+            return e.value
+        if _name(e) and e.id in self.consts:
+            return self.consts[e.id]
+        refuse(e, "non-constant")
+
+    def raise_(self, node):
+        x = node.exc
+        if isinstance(x, ast.Call):
+            x = x.func
+        if _name(x) and x.id in EXCS:
+            return EXCS[x.id]
+        refuse(node, "raise")
+
+    def read(self, node):
+        t, v = node.targets[0], node.value
+        if not (isinstance(t, ast.Tuple) and len(t.elts) == 2 and _name(t.elts[1], "cur") and isinstance(v, ast.Call) and _name(v.func) and not v.keywords):
+            return None
+        if v.func.id == "read_int_string" and len(v.args) == 2 and _name(v.args[0], "data") and _name(v.args[1], "cur") and _name(t.elts[0]):
+            return "MReadIntString %d" % self.slot(t.elts[0].id, t, True)
+        if (v.func.id == "relative_unpack" and len(v.args) == 3 and _name(v.args[1], "data") and isinstance(t.elts[0], ast.Tuple)
+                and all(_name(x) for x in t.elts[0].elts) and isinstance(v.args[0], ast.Constant) and isinstance(v.args[0].value, str)):
+            f = v.args[0].value
+            if not (f.startswith(">") and len(f) - 1 == len(t.elts[0].elts) and all(c in FMT for c in f[1:])):
+                refuse(node, "struct format")
+            ts = lst([str(self.slot(x.id, x, True)) for x in t.elts[0].elts])
+            fm = lst([FMT[c] for c in f[1:]])
+            if isinstance(v.args[2], ast.Constant) and v.args[2].value == 0 and type(v.args[2].value) is int:
+                return "MUnpackStart %s %s" % (fm, ts)
+            if _name(v.args[2], "cur"):
+                return "MUnpack %s %s" % (fm, ts)
+        return None
+
+    def if_chain(self, node, inner_defs):
+        """if v == C: A elif v == D: B else: E   ->  MIfEq v C (A) (MIfEq v D (B) (E))"""
+        t = node.test
+        if not (isinstance(t, ast.Compare) and len(t.ops) == 1 and isinstance(t.ops[0], ast.Eq) and _name(t.left)):
+            refuse(node, "if")
+        a = self.block(node.body, inner_defs)
+        if len(node.orelse) == 1 and isinstance(node.orelse[0], ast.If):
+            b = self.if_chain(node.orelse[0], inner_defs)
+        elif node.orelse:
+            b = self.block(node.orelse, inner_defs)
+        else:
+            b = "MSkip"
+        return "MIfEq %d %s (%s) (%s)" % (self.slot(t.left.id, t.left), zlit(self.const(t.comparators[0])), a, b)
+
+    def stmt(self, node, inner_defs):
+        if isinstance(node, ast.Expr) and isinstance(node.value, ast.Constant) and isinstance(node.value.value, str):
+            return None
+        if isinstance(node, ast.FunctionDef):
+            return None
+        if isinstance(node, ast.Assign) and len(node.targets) == 1:
+            r = self.read(node)
+            if r:
+                return r
+            t, v = node.targets[0], node.value
+            if _name(t) and isinstance(v, ast.BinOp) and isinstance(v.op, ast.BitAnd) and _name(v.left):
+                return "MAnd %d %d %s" % (self.slot(t.id, t, True), self.slot(v.left.id, v.left), zlit(self.const(v.right)))
+            if (_name(t) and isinstance(v, ast.Call) and _name(v.func) and v.func.id in ("gzip_decode", "snappy_decode") and len(v.args) == 1
+                    and _name(v.args[0]) and not v.keywords):
+                return "MDecompress %s %d %d" % (zlit(1 if v.func.id == "gzip_decode" else 2), self.slot(t.id, t, True), self.slot(v.args[0].id, v))
+            refuse(node, "assignment")
+        if isinstance(node, ast.If):
+            t = node.test
+            if (isinstance(t, ast.Compare) and len(t.ops) == 1 and isinstance(t.ops[0], ast.NotEq) and _name(t.left) and not node.orelse
+                    and len(node.body) == 1 and isinstance(node.body[0], ast.Raise)):
+                c = t.comparators[0]       # crc != zlib.crc32(data[K:]) & 0xFFFFFFFF
+                ok = (isinstance(c, ast.BinOp) and isinstance(c.op, ast.BitAnd) and isinstance(c.right, ast.Constant) and c.right.value == 0xFFFFFFFF
+                      and isinstance(c.left, ast.Call) and isinstance(c.left.func, ast.Attribute) and c.left.func.attr == "crc32"
+                      and _name(c.left.func.value, "zlib") and len(c.left.args) == 1 and not c.left.keywords)
+                if ok:
+                    sl = c.left.args[0]
+                    ok = (isinstance(sl, ast.Subscript) and _name(sl.value, "data") and isinstance(sl.slice, ast.Slice) and sl.slice.upper is None
+                          and sl.slice.step is None and isinstance(sl.slice.lower, ast.Constant) and type(sl.slice.lower.value) is int and sl.slice.lower.value >= 0)
+                if not ok:
+                    refuse(node, "checksum test")
+                return "MCrcCheck %d %d %s" % (self.slot(t.left.id, t.left), sl.slice.lower.value, self.raise_(node.body[0]))
+            return self.if_chain(node, inner_defs)
+        if isinstance(node, ast.Expr) and isinstance(node.value, ast.Yield):
+            y = node.value.value     # yield offset, Message(magic, att, key, value[, timestamp])
+            if (isinstance(y, ast.Tuple) and len(y.elts) == 2 and _name(y.elts[0]) and isinstance(y.elts[1], ast.Call) and _name(y.elts[1].func, "Message")
+                    and not y.elts[1].keywords and len(y.elts[1].args) in (4, 5) and all(_name(a) for a in y.elts[1].args)):
+                a = [self.slot(x.id, x) for x in y.elts[1].args]
+                ts = "None" if len(a) == 4 else "(Some %d)" % a[4]
+                return "MYieldMsg %d %d %d %d %d %s" % (self.slot(y.elts[0].id, y), a[0], a[1], a[2], a[3], ts)
+            refuse(node, "yield")
+        if isinstance(node, ast.For) and not node.orelse:
+            t = node.target
+            body = node.body
+            if not (isinstance(t, ast.Tuple) and len(t.elts) == 2 and all(_name(x) for x in t.elts) and len(body) == 1
+                    and isinstance(body[0], ast.Expr) and isinstance(body[0].value, ast.Yield) and isinstance(body[0].value.value, ast.Tuple)
+                    and [getattr(x, "id", None) for x in body[0].value.value.elts] == [x.id for x in t.elts]):
+                refuse(node, "for loop")
+            for x in t.elts:
+                self.slot(x.id, x, True)
+            src = _is_set_iter_call(node.iter)
+            if src is not None:
+                return "MYieldFromSet %d" % self.slot(src, node)
+            it = node.iter
+            if (isinstance(it, ast.Call) and _name(it.func) and it.func.id in inner_defs and inner_defs[it.func.id] == "absolute" and len(it.args) == 2
+                    and not it.keywords and _name(it.args[0]) and _is_set_iter_call(it.args[1]) is not None):
+                return "MYieldFromAbs %d %d" % (self.slot(it.args[0].id, it), self.slot(_is_set_iter_call(it.args[1]), it))
+            refuse(node, "for iterable")
+        if isinstance(node, ast.Raise):
+            return "MRaise %s" % self.raise_(node)
+        if isinstance(node, ast.Return):      # return vN(data, offset, cur): the nested generator function, inlined
+            c = node.value
+            if (isinstance(c, ast.Call) and _name(c.func) and c.func.id in inner_defs and inner_defs[c.func.id] != "absolute" and not c.keywords
+                    and [getattr(a, "id", None) for a in c.args] == ["data", "offset", "cur"]):
+                return "(%s)" % self.block(inner_defs[c.func.id].body, inner_defs)
+            refuse(node, "return")
+        refuse(node, type(node).__name__)
+
+    def block(self, body, inner_defs):
+        parts = [x for x in (self.stmt(n, inner_defs) for n in body) if x is not None]
+        if not parts:
+            return "MSkip"
+        out = parts[-1]
+        for p in reversed(parts[:-1]):
+            out = "MSeq (%s) (%s)" % (p, out)
+        return out
+
+
+def translate_absolute(fn):
+    if [a.arg for a in fn.args.args] != ["wrapper_offset", "inner"] or fn.decorator_list or fn.args.defaults:
+        refuse(fn, "absolute signature")
+    slots = ["wrapper_offset", "inner"]
+
+    def slot(name, node, define=False):
+        if name not in slots:
+            if not define:
+                refuse(node, "read of unknown name %s" % name)
+            slots.append(name)
+        return slots.index(name)
+
+    def block(body):
+        parts = [stmt(n) for n in body if not (isinstance(n, ast.Expr) and isinstance(n.value, ast.Constant))]
+        if not parts:
+            return "ASkip"
+        out = parts[-1]
+        for p in reversed(parts[:-1]):
+            out = "ASeq (%s) (%s)" % (p, out)
+        return out
+
+    def stmt(node):
+        if isinstance(node, ast.Assign) and len(node.targets) == 1 and _name(node.targets[0]):
+            t, v = node.targets[0], node.value
+            if isinstance(v, ast.Call) and _name(v.func, "list") and len(v.args) == 1 and _name(v.args[0]) and v.args[0].id == t.id and not v.keywords:
+                return "AListOf %d" % slot(t.id, t)
+            if (isinstance(v, ast.BinOp) and isinstance(v.op, ast.Sub) and _name(v.left) and isinstance(v.right, ast.Attribute) and v.right.attr == "offset"
+                    and isinstance(v.right.value, ast.Subscript) and _name(v.right.value.value)
+                    and isinstance(v.right.value.slice, ast.UnaryOp) and isinstance(v.right.value.slice.op, ast.USub)
+                    and isinstance(v.right.value.slice.operand, ast.Constant) and v.right.value.slice.operand.value == 1):
+                w, l = slot(v.left.id, v), slot(v.right.value.value.id, v)
+                return "ABase %d %d %d" % (slot(t.id, t, True), w, l)
+            refuse(node, "assignment in absolute")
+        if isinstance(node, ast.If) and _name(node.test) and not node.orelse:
+            return "AIfNonEmpty %d (%s)" % (slot(node.test.id, node), block(node.body))
+        if isinstance(node, ast.For) and not node.orelse and _name(node.iter):
+            t, body = node.target, node.body
+            ok = (isinstance(t, ast.Tuple) and len(t.elts) == 2 and all(_name(x) for x in t.elts) and len(body) == 1 and isinstance(body[0], ast.Expr)
+                  and isinstance(body[0].value, ast.Yield) and isinstance(body[0].value.value, ast.Tuple) and len(body[0].value.value.elts) == 2)
+            if ok:
+                y0, y1 = body[0].value.value.elts
+                ok = (isinstance(y0, ast.BinOp) and isinstance(y0.op, ast.Add) and _name(y0.left, t.elts[0].id) and _name(y0.right)
+                      and _name(y1, t.elts[1].id))
+            if not ok:
+                refuse(node, "for loop in absolute")
+            lsl = slot(node.iter.id, node)
+            b = slot(y0.right.id, y0)
+            slot(t.elts[0].id, t, True)
+            slot(t.elts[1].id, t, True)
+            return "AYieldShifted %d %d" % (lsl, b)
+        refuse(node, "%s in absolute" % type(node).__name__)
+
+    return block(fn.body)
+
+
+def translate_decode_message(fn, consts):
+    if [a.arg for a in fn.args.args] != ["cls", "data", "offset"] or fn.args.defaults or fn.args.vararg or fn.args.kwarg or fn.args.kwonlyargs:
+        refuse(fn, "signature")
+    if [d.id if _name(d) else None for d in fn.decorator_list] != ["classmethod"]:
+        refuse(fn, "decorators")
+    defs = {}
+    for n in fn.body:
+        if isinstance(n, ast.FunctionDef):
+            if n.name == "absolute":
+                defs[n.name] = "absolute"
+            else:
+                if [a.arg for a in n.args.args] != ["data", "offset", "cur"] or n.decorator_list or n.args.defaults:
+                    refuse(n, "nested function signature")
+                defs[n.name] = n
+    for sub in ast.walk(fn):
+        if isinstance(sub, (ast.Global, ast.Nonlocal, ast.Lambda, ast.Try, ast.With, ast.While, ast.AugAssign, ast.NamedExpr, ast.ListComp,
+                            ast.GeneratorExp, ast.DictComp, ast.SetComp, ast.Delete, ast.YieldFrom)):
+            refuse(sub, type(sub).__name__)
+    absn = [n for n in fn.body if isinstance(n, ast.FunctionDef) and n.name == "absolute"]
+    helper = translate_absolute(absn[0]) if absn else "ASkip"
+    f = MFn(consts)
+    body = f.block(fn.body, defs)
+    return {"status": "translated", "term": "mk_mprog %d 0 (%s) (%s)" % (len(f.slots), body, helper), "nvars": len(f.slots), "vars": list(f.slots), "type": "mprog"}
+
+
+def translate_set_iter(fn):
+    if [a.arg for a in fn.args.args] != ["cls", "data"] or fn.args.defaults or [d.id if _name(d) else None for d in fn.decorator_list] != ["classmethod"]:
+        refuse(fn, "signature")
+    slots = []
+
+    def slot(name, node, define=False):
+        if name in ("data", "cur", "cls"):
+            refuse(node, "use of %s as a value" % name)
+        if name not in slots:
+            if not define:
+                refuse(node, "read of unknown name %s" % name)
+            slots.append(name)
+        return slots.index(name)
+
+    def seq(parts):
+        parts = [p for p in parts if p is not None]
+        if not parts:
+            return "SsSkip"
+        out = parts[-1]
+        for p in reversed(parts[:-1]):
+            out = "SsSeq (%s) (%s)" % (p, out)
+        return out
+
+    def block(body):
+        return seq([stmt(n) for n in body])
+
+    state = {"cur0": False}
+
+    def stmt(node):
+        if isinstance(node, ast.Expr) and isinstance(node.value, ast.Constant) and isinstance(node.value.value, str):
+            return None
+        if isinstance(node, ast.Assign) and len(node.targets) == 1:
+            t, v = node.targets[0], node.value
+            if _name(t, "cur") and isinstance(v, ast.Constant) and v.value == 0 and type(v.value) is int and not state["cur0"]:
+                state["cur0"] = True
+                return None
+            if _name(t) and isinstance(v, ast.Constant) and v.value is False:
+                return "SsInit %d" % slot(t.id, t, True)
+            if (isinstance(t, ast.Tuple) and len(t.elts) == 2 and _name(t.elts[1], "cur") and isinstance(v, ast.Call) and _name(v.func) and not v.keywords):
+                if v.func.id == "read_int_string" and [getattr(a, "id", None) for a in v.args] == ["data", "cur"] and _name(t.elts[0]):
+                    return "SsReadIntString %d" % slot(t.elts[0].id, t, True)
+                if (v.func.id == "relative_unpack" and len(v.args) == 3 and _name(v.args[1], "data") and _name(v.args[2], "cur")
+                        and isinstance(v.args[0], ast.Constant) and isinstance(v.args[0].value, str) and isinstance(t.elts[0], ast.Tuple)
+                        and all(_name(x) for x in t.elts[0].elts)):
+                    f = v.args[0].value
+                    if not (f.startswith(">") and len(f) - 1 == len(t.elts[0].elts) and all(c in FMT for c in f[1:])):
+                        refuse(node, "struct format")
+                    return "SsUnpack %s %s" % (lst([FMT[c] for c in f[1:]]), lst([str(slot(x.id, x, True)) for x in t.elts[0].elts]))
+            if (_name(t) and isinstance(v, ast.Call) and isinstance(v.func, ast.Attribute) and v.func.attr == "_decode_message" and _name(v.func.value)
+                    and v.func.value.id in ("KafkaCodec", "cls") and len(v.args) == 2 and all(_name(a) for a in v.args) and not v.keywords):
+                m, o = slot(v.args[0].id, v), slot(v.args[1].id, v)
+                return "SsCallMessage %d %d %d" % (slot(t.id, t, True), m, o)
+            refuse(node, "assignment")
+        if isinstance(node, ast.While) and not node.orelse:
+            t = node.test
+            if not (isinstance(t, ast.Compare) and len(t.ops) == 1 and isinstance(t.ops[0], ast.Lt) and _name(t.left, "cur")
+                    and isinstance(t.comparators[0], ast.Call) and _name(t.comparators[0].func, "len") and len(t.comparators[0].args) == 1
+                    and _name(t.comparators[0].args[0], "data")):
+                refuse(node, "while test")
+            if not state["cur0"]:
+                refuse(node, "cursor not initialised to 0")
+            return "SsWhileData (%s)" % block(node.body)
+        if isinstance(node, ast.Try) and not node.orelse and not node.finalbody and len(node.handlers) == 1:
+            h = node.handlers[0]
+            if not (_name(h.type, "BufferUnderflowError") and h.name is None):
+                refuse(node, "except clause")
+            return "SsTry (%s) (%s)" % (block(node.body), block(h.body))
+        if isinstance(node, ast.For) and not node.orelse and _name(node.iter):
+            t, body = node.target, node.body
+            ok = (isinstance(t, ast.Tuple) and len(t.elts) == 2 and all(_name(x) for x in t.elts) and len(body) == 2
+                  and isinstance(body[0], ast.Assign) and len(body[0].targets) == 1 and _name(body[0].targets[0])
+                  and isinstance(body[0].value, ast.Constant) and body[0].value.value is True
+                  and isinstance(body[1], ast.Expr) and isinstance(body[1].value, ast.Yield) and isinstance(body[1].value.value, ast.Call)
+                  and _name(body[1].value.value.func, "OffsetAndMessage") and not body[1].value.value.keywords
+                  and [getattr(a, "id", None) for a in body[1].value.value.args] == [x.id for x in t.elts])
+            if not ok:
+                refuse(node, "for loop")
+            it = slot(node.iter.id, node)
+            fl = slot(body[0].targets[0].id, node)
+            for x in t.elts:
+                slot(x.id, x, True)
+            return "SsForYield %d %d" % (it, fl)
+        if isinstance(node, ast.If):
+            t = node.test
+            if (isinstance(t, ast.Compare) and len(t.ops) == 1 and isinstance(t.ops[0], ast.Is) and _name(t.left)
+                    and isinstance(t.comparators[0], ast.Constant) and t.comparators[0].value is False):
+                return "SsIfFlagFalse %d (%s) (%s)" % (slot(t.left.id, t), block(node.body), block(node.orelse) if node.orelse else "SsSkip")
+            refuse(node, "if")
+        if isinstance(node, ast.Raise):
+            x = node.exc.func if isinstance(node.exc, ast.Call) else node.exc
+            if not (_name(x) and x.id in EXCS):
+                refuse(node, "raise")
+            if node.cause is not None and not (isinstance(node.cause, ast.Constant) and node.cause.value is None):
+                refuse(node, "raise from")
+            return "SsRaise %s" % EXCS[x.id]
+        if isinstance(node, ast.Return) and node.value is None:
+            return "SsReturn"
+        refuse(node, type(node).__name__)
+
+    term = block(fn.body)
+    return {"status": "translated", "term": "mk_sprog %d (%s)" % (len(slots), term), "nvars": len(slots), "vars": list(slots), "type": "sprog"}
+
+
+def imported_consts(tree, repo):
+    """integer constants that kafkacodec.py imports by name from sibling modules (from .common import CODEC_GZIP, ...)"""
+    out = {}
+    for n in tree.body:
+        if isinstance(n, ast.ImportFrom) and n.level == 1 and n.module and repo is not None:
+            path = os.path.join(repo, "afkak", n.module + ".py")
+            try:
+                mc = module_consts(ast.parse(open(path).read()))
+            except (OSError, SyntaxError):
+                continue
+            for a in n.names:
+                if a.asname is None and a.name in mc:
+                    out[a.name] = mc[a.name]
+    return out
+
+
+def translate_msgset(text, repo=None):
+    tree = ast.parse(text)
+    consts = imported_consts(tree, repo)
+    consts.update(module_consts(tree))
+    cls = [n for n in tree.body if isinstance(n, ast.ClassDef) and n.name == "KafkaCodec"]
+    methods = {n.name: n for n in cls[0].body if isinstance(n, ast.FunctionDef)} if len(cls) == 1 else {}
+    out = {}
+    for key, name, f in (("msg__decode_message", "_decode_message", lambda m: translate_decode_message(m, consts)),
+                         ("msg__decode_message_set_iter", "_decode_message_set_iter", translate_set_iter)):
+        try:
+            if name not in methods:
+                raise Refuse("method %s not found" % name)
+            out[key] = f(methods[name])
+        except Refuse as e:
+            out[key] = {"status": "refused", "reason": str(e)}
+        except RecursionError:
+            out[key] = {"status": "refused", "reason": "source too deeply nested"}
+    return out
+
+
 def translate_repo(repo):
-    out = translate_source(open(os.path.join(repo, "afkak", "kafkacodec.py")).read())
+    ktext = open(os.path.join(repo, "afkak", "kafkacodec.py")).read()
+    out = translate_source(ktext)
+    out.update(translate_msgset(ktext, repo))
     try:
         out.update(translate_util(open(os.path.join(repo, "afkak", "_util.py")).read()))
     except (SyntaxError, OSError) as e:
@@ -528,7 +902,7 @@ HEADER = """(* GENERATED by harness/py2dsl.py --snapshot from /repo/afkak/kafkac
    The decoder-language terms (Model.DecDSL.stmt) of afkak's response decoders as the source read when the snapshot
    was taken.  Proofs/DecDSLSound.v proves that interpreting them is the hand-written model Model.Responses; on every
    run harness/py2dsl.py translates the source again and Props/C05gen.v is re-checked against THAT translation. *)
-From AV Require Import Base.Util Model.Prim Model.DecDSL Model.ReadDSL.
+From AV Require Import Base.Util Model.Prim Model.DecDSL Model.ReadDSL Model.MsgDSL.
 Local Open Scope nat_scope.      (* variable slots are nat; the integer constants of the source carry %Z *)
 """
 
